@@ -109,6 +109,7 @@ type pathCtx struct {
 	ufs        map[string]bool
 	epsDeclared bool
 	maxSym     int
+	merge      *mergeCtx
 }
 
 // control-flow panics used by the engine
@@ -138,7 +139,73 @@ func (pc *pathCtx) declare(name, sort string) {
 }
 
 func (pc *pathCtx) assert(f string) {
+	if pc.merge != nil {
+		if c := pc.merge.allConds(); len(c) > 0 {
+			f = "(=> " + conj(c) + " " + f + ")"
+		}
+	}
 	pc.solver.Send("(assert " + f + ")")
+}
+
+// mergeCtx is the state of one sub-path of a merged (summarised) pure call.
+type mergeCtx struct {
+	prefix  []int64
+	pos     int
+	taken   []int64
+	pending [][]int64
+	conds   []string
+	outer   *mergeCtx
+}
+
+func (m *mergeCtx) allConds() []string {
+	var c []string
+	if m.outer != nil {
+		c = m.outer.allConds()
+	}
+	return append(c, m.conds...)
+}
+
+func conj(cs []string) string {
+	if len(cs) == 0 {
+		return "true"
+	}
+	if len(cs) == 1 {
+		return cs[0]
+	}
+	return "(and " + strings.Join(cs, " ") + ")"
+}
+
+func (pc *pathCtx) branchMerged(cond string) bool {
+	m := pc.merge
+	if m.pos < len(m.prefix) {
+		d := m.prefix[m.pos]
+		m.pos++
+		m.taken = append(m.taken, d)
+		if d == 1 {
+			m.conds = append(m.conds, cond)
+			return true
+		}
+		m.conds = append(m.conds, "(not "+cond+")")
+		return false
+	}
+	m.pos++
+	ctx := m.allConds()
+	r1 := pc.solver.CheckWith(conj(append(append([]string{}, ctx...), cond)))
+	if r1 == "unsat" {
+		m.taken = append(m.taken, 0)
+		m.conds = append(m.conds, "(not "+cond+")")
+		return false
+	}
+	r0 := pc.solver.CheckWith(conj(append(append([]string{}, ctx...), "(not "+cond+")")))
+	if r1 == "unknown" || r0 == "unknown" {
+		pc.stats.UnknownFeas++
+	}
+	if r0 != "unsat" {
+		m.pending = append(m.pending, append(append([]int64{}, m.taken...), 0))
+	}
+	m.taken = append(m.taken, 1)
+	m.conds = append(m.conds, cond)
+	return true
 }
 
 // branch decides a symbolic condition. Returns the side taken.
@@ -148,6 +215,9 @@ func (pc *pathCtx) branch(cond string) bool {
 	}
 	if cond == "false" {
 		return false
+	}
+	if pc.merge != nil {
+		return pc.branchMerged(cond)
 	}
 	pc.nsym++
 	pc.stats.SymBranches++
@@ -185,6 +255,9 @@ func (pc *pathCtx) branch(cond string) bool {
 // concretize picks a concrete value for integer term t (as SMT term of sort given by
 // mk(c) producing the equality formula) among candidates lo..hi inclusive.
 func (pc *pathCtx) concretize(eq func(c int64) string, lo, hi int64) int64 {
+	if pc.merge != nil {
+		panic(mergeAbort{"concretize inside summary"})
+	}
 	if hi-lo > 4096 {
 		panic(unsupported{fmt.Sprintf("concretize range too large: %d..%d", lo, hi)})
 	}
